@@ -35,10 +35,14 @@ def run(rep, tier, seed):
     n2 = 2 if tier == "quick" else 3
     cases += loadcheck.explore(rep, "MC_C06", n2, items="Mixed", prelude="Pre", label="MC_C06 loops mixed with statements before/after, N=%d" % n2,
                                emit=False, extra_consts="CONSTRAINT EmitU\n")
+    n3 = 3 if tier == "quick" else 4
+    cases += loadcheck.explore(rep, "MC_C06", n3, items="Again", prelude="Pre", emit=False, extra_consts="CONSTRAINT EmitU\n",
+                               label="MC_C06 the same loop repeated over overlapping values with redeclarations in between, N=%d" % n3)
     loadcheck.replay_cases(rep, cases, seed, sections=("ops", "modes", "vars"), fingerprint=fingerprint, judge=judge, strict_cls=False)
     rep.cov["rule"] = ("every loop header (int/float ranges over 0..3 with/without step incl. empty, bracketed/parenthesised/bare lists of int, float, "
                        "bool, str values and expressions, also of the wrong type) x body (loop variable in modes, arguments, keywords, list elements, "
-                       "array indices); plus sequences of up to %d items mixing loops and statements; each executed as written and unrolled" % n2)
+                       "array indices); plus sequences of up to %d items mixing loops and statements; the same loop repeated over overlapping "
+                       "values with the scalar and the array its body reads declared again in between; each executed as written and unrolled" % n2)
     rep.assumptions += ["Unroll (BBDenote) substitutes a literal of the converted value; loops whose values are not writable literals are compared with the specification only"]
 
 
